@@ -1002,6 +1002,15 @@ impl Findings {
     }
 }
 
+fn restore_schema_location(m: &AutosarModel, saved: Option<CharacterData>) {
+    let root = m.root_element();
+    if let Some(v) = saved {
+        if root.attribute_value(AttributeName::xsiSchemalocation).as_ref() != Some(&v) {
+            let _ = root.set_attribute(AttributeName::xsiSchemalocation, v);
+        }
+    }
+}
+
 fn is_ancestor_or_self(a: &Element, x: &Element) -> bool {
     let mut cur = Some(x.clone());
     while let Some(c) = cur {
@@ -1072,6 +1081,7 @@ fn oracle_script(names: &Names, script: usize, probes: Vec<String>, ops: &[Op], 
             dst_ctx_problems: Option<(usize, String)>,
             parent_path: Option<String>,
             src_local: bool,
+            src_dup_paths: bool,
         }
         let pre_copy: Option<PreCopy> = match op {
             Op::Copy(d, s) | Op::CopyAt(d, s, _) => {
@@ -1114,8 +1124,13 @@ fn oracle_script(names: &Names, script: usize, probes: Vec<String>, ops: &[Op], 
                         _ => None,
                     };
                     let src_local = src.elements_dfs().any(|(_, e)| matches!(e.file_membership(), Ok((true, _))));
+                    let src_dup_paths = {
+                        let mut seen = HashSet::new();
+                        src.elements_dfs().filter(|(_, e)| e.is_identifiable()).filter_map(|(_, e)| e.path().ok()).any(|p| !seen.insert(p))
+                    };
                     PreCopy {
                         src_local,
+                        src_dup_paths,
                         src_ser,
                         src_tree: actual(&src),
                         existing: ex.hidx.keys().cloned().collect(),
@@ -1154,7 +1169,11 @@ fn oracle_script(names: &Names, script: usize, probes: Vec<String>, ops: &[Op], 
         let pre_dup: Option<(AutosarModel, Vec<(String, u32, Option<bool>, Result<String, String>)>, HashSet<Element>)> = match op {
             Op::Duplicate(m) => {
                 let md = ex.models[*m].clone();
+                // ArxmlFile::serialize rewrites xsi:schemaLocation of the root: the oracle's own serializations must
+                // not be mistaken for an effect of duplicate() on the original
+                let saved = md.root_element().attribute_value(AttributeName::xsiSchemalocation);
                 let files = md.files().map(|f| (f.filename().to_string_lossy().to_string(), f.version() as u32, f.xml_standalone(), f.serialize().map_err(|e| err_name(&e)))).collect();
+                restore_schema_location(&md, saved);
                 Some((md, files, ex.hidx.keys().cloned().collect()))
             }
             _ => None,
@@ -1210,10 +1229,18 @@ fn oracle_script(names: &Names, script: usize, probes: Vec<String>, ops: &[Op], 
                             fd.count("identifiables_checked");
                             match e.path() {
                                 Ok(p) => {
-                                    if model.get_element_by_path(&p).as_ref() != Some(&e) {
+                                    let found = model.get_element_by_path(&p);
+                                    if found.as_ref() != Some(&e) {
                                         let nm = e.item_name();
                                         let nameless = copy.elements_dfs().any(|(_, x)| x.is_identifiable() && x.item_name().is_none());
-                                        fd.fail(script, opi, "NOT-FINDABLE", format!("classes={} op=[{}] path={} name={:?}", if nameless { "nameless" } else { "-" }, op.line(), p, nm));
+                                        // inherited from C04-copy-container-duplicates-paths: another LIVE element of this model
+                                        // has the same path and is the one the index returns, and the twin comes from a copy of
+                                        // a non-identifiable container (this copy, or an earlier one: the source subtree
+                                        // already held two identifiable elements with one path)
+                                        let twin = found.as_ref().map(|o| o.path().ok().as_deref() == Some(p.as_str())).unwrap_or(false);
+                                        let dup_class = twin && (!pc.src.is_identifiable() || pc.src_dup_paths);
+                                        let cl = if nameless { "nameless" } else if dup_class { "duplicate-path" } else { "-" };
+                                        fd.fail(script, opi, "NOT-FINDABLE", format!("classes={} op=[{}] path={} name={:?}", cl, op.line(), p, nm));
                                     }
                                 }
                                 Err(er) => fd.fail(script, opi, "NOT-FINDABLE", format!("op=[{}] path() fails: {}", op.line(), err_name(&er))),
@@ -1409,6 +1436,8 @@ fn oracle_script(names: &Names, script: usize, probes: Vec<String>, ops: &[Op], 
                 Some(mk) => {
                     fd.count("duplicates_ok");
                     let copy = ex.models[mk].clone();
+                    let saved_orig = orig.root_element().attribute_value(AttributeName::xsiSchemalocation);
+                    let saved_copy = copy.root_element().attribute_value(AttributeName::xsiSchemalocation);
                     let cf: Vec<ArxmlFile> = copy.files().collect();
                     if cf.len() != files.len() {
                         fd.fail(script, opi, "DUP-FILES", format!("{} files -> {}", files.len(), cf.len()));
@@ -1440,6 +1469,8 @@ fn oracle_script(names: &Names, script: usize, probes: Vec<String>, ops: &[Op], 
                             fd.fail(script, opi, "SRC-CHANGED", format!("op=[{}] original file text changed", op.line()));
                         }
                     }
+                    restore_schema_location(&orig, saved_orig);
+                    restore_schema_location(&copy, saved_copy);
                 }
             }
         }
@@ -1659,6 +1690,24 @@ fn findings_main(args: &[String]) {
         let x = b.h(Op::CreateNamed(el, n.elidx("SYSTEM-SIGNAL"), name));
         b.push(Op::Copy(el, x));
         emit(6, "copy-name-too-long", b);
+    }
+    // 7: inherited (C04-copy-container-duplicates-paths): a copy of a non-identifiable container puts a second element under an
+    //    existing path; a later copy of the enclosing element holds both twins, only one of them is findable
+    {
+        let (mut b, el) = start(0x100000);
+        let chan = |b: &mut Builder, nm: &[u8]| -> (usize, usize, usize) {
+            let c = b.h(Op::CreateNamed(el, n.elidx("CAN-CLUSTER"), nm.to_vec()));
+            let v = b.h(Op::CreateSub(c, n.elidx("CAN-CLUSTER-VARIANTS")));
+            let cc = b.h(Op::CreateSub(v, n.elidx("CAN-CLUSTER-CONDITIONAL")));
+            let pc = b.h(Op::CreateSub(cc, n.elidx("PHYSICAL-CHANNELS")));
+            b.h(Op::CreateNamed(pc, n.elidx("CAN-PHYSICAL-CHANNEL"), b"Ch1".to_vec()));
+            (c, v, cc)
+        };
+        let (ca, va, _) = chan(&mut b, b"CA");
+        let (_, _, ccb) = chan(&mut b, b"CB");
+        b.push(Op::CopyAt(va, ccb, 0));
+        b.push(Op::Copy(el, ca));
+        emit(7, "copy-duplicate-path-inherited", b);
     }
     std::fs::write(out, text).unwrap();
 }
